@@ -36,8 +36,13 @@ Print Assumptions C03_source_skeleton.
 Theorem C03_index_attrs_source :
   sel_indices_attrs = [("scan_indices", "Observation/scan_index"); ("compscan_indices", "Observation/compscan_index");
                        ("target_indices", "Observation/target_index")]%string
-  /\ it_field WScans = d_scan /\ it_field WCompscans = d_cscan /\ it_tfield = d_target.
-Proof. exact index_attrs_ok. Qed.
+  /\ it_field WScans = d_scan /\ it_field WCompscans = d_cscan /\ it_tfield = d_target
+  (* the `target = ...` statement of each generator: scans() reads target_indices[0] (lowest-numbered target of the selection),
+     compscans() the target index of the first selected dump (self.sensor['Observation/target_index'][0]) *)
+  /\ (forall o m, pick_target WScans o m = hd_error (indices_of d_target o m))
+  /\ (forall o m, pick_target WCompscans o m = hd_error (map d_target (kept_dumps o m))).
+Proof. split; [apply index_attrs_ok|]. split; [apply index_attrs_ok|]. split; [apply index_attrs_ok|]. split; [apply index_attrs_ok|].
+  split; [exact pick_target_scans | exact pick_target_compscans]. Qed.
 Print Assumptions C03_index_attrs_source.
 
 (* tie: the numbers and strings in the decisions of the segmentation pipelines of VisibilityDataV4 / H5DataV3 /
@@ -82,14 +87,18 @@ Print Assumptions C03_partition.
 
 (* YIELDED VALUES.  The state (label) yielded is that of every dump shown, provided the event-indexed sensor agrees
    with the per-dump sensors (names_ok; true of the segmentations of the format classes, shown on the example and
-   checked on every generated data set).  The target yielded is a target of the dumps shown, the lowest-numbered one;
-   it is THE target of the dumps shown whenever they share one target (every scan of a segmented observation). *)
+   checked on every generated data set).  The target yielded is a target of the dumps shown: scans() yields the
+   lowest-numbered one, compscans() the target of the FIRST dump shown in time order (no earlier dump is shown) - the
+   "first target associated with compound scan" of its docstring, full strength after the repair of C03-F2; either way it
+   is THE target of the dumps shown whenever they share one target (every scan of a segmented observation). *)
 Theorem C03_yield_values : forall B (O : sobs) w (body : st -> res (B * st)) s ys sf,
   body_ok (so O) body -> Inv3 (so O) s -> iterate O w body s = Ok (ys, sf) ->
   forall y, In y ys ->
   (names_ok O w -> forall p d, nth_error (o_dumps (so O)) p = Some d -> shown y p = true -> y_name y = namefield w d)
   /\ (exists p d, nth_error (o_dumps (so O)) p = Some d /\ shown y p = true /\ d_target d = y_target y)
-  /\ (forall p d, nth_error (o_dumps (so O)) p = Some d -> shown y p = true -> y_target y <= d_target d)
+  /\ (w = WScans -> forall p d, nth_error (o_dumps (so O)) p = Some d -> shown y p = true -> y_target y <= d_target d)
+  /\ (w = WCompscans -> exists p d, nth_error (o_dumps (so O)) p = Some d /\ shown y p = true /\ d_target d = y_target y
+                                    /\ forall q, (q < p)%nat -> shown y q = false)
   /\ (forall t, (forall p d, nth_error (o_dumps (so O)) p = Some d -> shown y p = true -> d_target d = t) ->
         y_target y = t).
 Proof. exact yield_values. Qed.
@@ -253,7 +262,7 @@ Theorem C03_example :
   /\ exists ys sf, iterate_nested ex_O WCompscans WScans ex_s = Ok (ys, sf)
        /\ map (summary (map (summary (fun _ : unit => tt)))) ys =
           [(0, 1, 1, [5; 6], [(2, 0, 1, [5; 6], tt)]);
-           (1, 2, 0, [7; 8; 9], [(3, 2, 1, [7; 8], tt); (4, 3, 0, [9], tt)])]
+           (1, 2, 1, [7; 8; 9], [(3, 2, 1, [7; 8], tt); (4, 3, 0, [9], tt)])]
        /\ positions (tk sf) = [5; 6; 7; 8; 9] /\ fk sf = fk ex_s /\ bk sf = bk ex_s.
 Proof. exact ex_facts. Qed.
 Print Assumptions C03_example.
@@ -370,7 +379,7 @@ Theorem C03_abandoned : forall B (O : sobs) w (body : st -> res (B * st)) n s ys
   /\ wk sf = wk s /\ flk sf = flk s
   /\ (forall k, lookup k (sel sf) = if String.eqb k (it_pop w) then Some (VScans [SIdx (ab_index a)]) else lookup k (sel s))
   /\ name_of O w (ab_index a) = Some (ab_name a)
-  /\ (exists rest, indices_of d_target (so O) (tk sf) = ab_target a :: rest).
+  /\ pick_target w (so O) (tk sf) = Some (ab_target a).
 Proof.
   intros B O w body n s ys a sf HB H3 H.
   destruct (ScansBodyP.break_spec O w body HB n s ys a sf H3 H) as (A1 & A2 & A3 & _ & A4).
